@@ -99,13 +99,42 @@ OWNER = {
 }
 
 
+PRIORITY = ['base', 'codec_rx', 'codec_tx', 'codec_ack', 'utils', 'context', 'handle', 'stream', 'packet_stream', 'accessors', 'opts']
+_INCLUDERS = None
+
+
+def owner_of(f):
+    """the unit that owns (counts, and is run for) the tagged clauses of a shared include file: the explicit table
+    above, else the first unit in PRIORITY order whose template includes the file"""
+    global _INCLUDERS
+    if f in OWNER:
+        return OWNER[f]
+    if _INCLUDERS is None:
+        _INCLUDERS = {}
+        for un in unit_templates():
+            try:
+                txt = open(os.path.join(ROOT, 'units', un + '.vrs')).read()
+            except OSError:
+                continue
+            for m in re.finditer(r'^//@include\s+(\S+)', txt, flags=re.M):
+                _INCLUDERS.setdefault(m.group(1), []).append(un)
+    us = _INCLUDERS.get(f, [])
+    if len(us) <= 1:
+        return us[0] if us else None
+    for pu in PRIORITY:
+        if pu in us:
+            return pu
+    return sorted(us)[0]
+
+
 def owned_tags(unit_name, unit):
     """tags of the assembled unit that this unit owns: (line, props, name, status)"""
     out = []
     for (ln, props, name, st) in tags_in_text(unit.text()):
         o = unit.origin[ln - 1] if ln - 1 < len(unit.origin) else None
         f = o[1] if o and o[0] == 'tpl' else None
-        if f in OWNER and OWNER[f] != unit_name:
+        ow = owner_of(f) if f else None
+        if ow is not None and ow != unit_name:
             continue
         out.append((ln, props, name, st))
     return out
@@ -428,7 +457,7 @@ def main():
     def uniq(fs):
         seen, out = set(), []
         for f in fs:
-            k = (f[0], f[1], site_key(f[3]))
+            k = (f[1], site_key(f[3]))
             if k not in seen:
                 seen.add(k)
                 out.append(f)
